@@ -61,8 +61,8 @@ theorem msg_bytes_roundtrip (s : Shape) (v : Val) (hs : hasShape s v = true) (hl
 theorem C04_partial : ∀ s v, hasShape s v = true → decVal Mode.lax s (encVal v) = some v :=
   dec_enc_lax
 
-/-- After the repair a point is a list of 0 or 2 items (any header form). -/
-theorem point_strict (t : Cbor) (v : Val) (h : decPoint t = some v) :
+/-- After the repair a point is a list of 0 or 2 items (any header form), in every mode. -/
+theorem point_strict (strip : Bool) (t : Cbor) (v : Val) (h : decPoint strip t = some v) :
     ∃ xs, items t = some xs ∧ (xs.length = 0 ∨ xs.length = 2) := by
   unfold decPoint at h
   split at h
@@ -71,15 +71,12 @@ theorem point_strict (t : Cbor) (v : Val) (h : decPoint t = some v) :
   · cases h
 
 /-- …and a two-item point is `[unsigned slot, byte-string hash]`. -/
-theorem point_fields (x y : Cbor) (w : W) (v : Val) (h : decPoint (.arr w [x, y]) = some v) :
+theorem point_fields (x y : Cbor) (w : W) (v : Val) (h : decPoint false (.arr w [x, y]) = some v) :
     ∃ ws slot hash, x = .int false ws slot ∧ strPayload false y = some hash ∧ v = .s [.u slot, .h hash] := by
-  unfold decPoint items at h
-  simp only at h
+  simp only [decPoint, items, Bool.false_eq_true, ↓reduceIte] at h
+  unfold pointPair at h
   split at h
-  · rename_i heq; cases heq
-  · rename_i ws slot hh heq
-    simp only [Option.some.injEq, List.cons.injEq, and_true] at heq
-    obtain ⟨rfl, rfl⟩ := heq
+  · rename_i ws slot
     split at h
     · rename_i hash hp
       simp only [Option.some.injEq] at h
@@ -92,9 +89,9 @@ theorem point_old_witness :
     (decPointOld (.arr .w0 [.int false .w0 1, .int false .w0 2, .int false .w0 3])).map render = some "(0,h)" ∧
     (decPointOld (.arr .w0 [.int false .w0 5])).map render = some "(0,h)" ∧
     (decPointOld (.prim .w0 22)).map render = some "(0,h)" ∧
-    (decPoint (.arr .w0 [.int false .w0 1, .int false .w0 2, .int false .w0 3])).isNone = true ∧
-    (decPoint (.arr .w0 [.int false .w0 5])).isNone = true ∧
-    (decPoint (.prim .w0 22)).isNone = true := by
+    (decPoint true (.arr .w0 [.int false .w0 1, .int false .w0 2, .int false .w0 3])).isNone = true ∧
+    (decPoint true (.arr .w0 [.int false .w0 5])).isNone = true ∧
+    (decPoint true (.prim .w0 22)).isNone = true := by
   decide
 
 /-- Recorded findings: the second clause of `C04_full` fails for the code as it is.
